@@ -298,7 +298,7 @@ func init() {
 	register(ruleSilentDefault, ruleItemTypes)
 	addProp(&PropSpec{
 		ID:          "C01",
-		Rules:       []string{"R-EXH", "R-SCRATCHSTATUS", "R-SILENTDEFAULT", "R-ITEMTYPES", "R-TOWER", "R-ONELEVEL", "R-MODEGUARD", "R-FILTER", "R-KLEENE", "R-PREDLOOP", "R-CMPTABLE", "R-ZONE", "R-TRAVERSAL", "R-SUBEVAL", "R-LAST", "R-FAILSTOP", "R-STATE", "R-SCOPE", "R-OVF", "R-TRUNC", "R-LITCHAIN", "R-PREC", "R-EMPTYPROD", "R-EXECADDR", "R-F2I", "R-EXACTCMP", "R-EMITORDER", "R-COLLMONO", "R-NEXTBLIND", "R-ARITHOP", "R-FOUNDKEPT", "R-GATE", "R-OPERANDORDER", "R-UNWRAPTHREAD"},
+		Rules:       []string{"R-EXH", "R-SCRATCHSTATUS", "R-CTXZONE", "R-FOLD", "R-SILENTDEFAULT", "R-ITEMTYPES", "R-TOWER", "R-ONELEVEL", "R-MODEGUARD", "R-FILTER", "R-KLEENE", "R-PREDLOOP", "R-CMPTABLE", "R-ZONE", "R-TRAVERSAL", "R-SUBEVAL", "R-LAST", "R-FAILSTOP", "R-STATE", "R-SCOPE", "R-OVF", "R-TRUNC", "R-LITCHAIN", "R-PREC", "R-EMPTYPROD", "R-EXECADDR", "R-F2I", "R-EXACTCMP", "R-EMITORDER", "R-COLLMONO", "R-NEXTBLIND", "R-ARITHOP", "R-FOUNDKEPT", "R-GATE", "R-OPERANDORDER", "R-UNWRAPTHREAD"},
 		Explanation: "Conformance of Query is a statement about values; the part of it that is a shape of the code is that parser and executor speak the same vocabulary: every node shape and enum constant that a grammar action can construct (computed by abstract interpretation of the goyacc actions) has an executor arm that neither falls into the implementation-bug error nor into a silent 'not found'; every produced item is of a documented item type; the numeric representations are handled together. A feature added to the grammar without an executor arm, or a case list that loses a member, breaks conformance for every path using it and passes a suite that has no row for it.",
 		Decided: []string{"R-EXH: no feasible ErrInvalid for parser-produced paths (today: 5 known findings, D3)", "R-SILENTDEFAULT: no operator switch answers a buildable node with a silent 'not found'",
 			"R-ITEMTYPES: produced items stay inside the 13-type universe", "R-TOWER: numeric representations are siblings",
